@@ -463,7 +463,9 @@ func (p *parser) parseDotMember(left ast.Expression) ast.Expression {
 	literal := p.literal
 	idx := p.idx
 
-	if !matchIdentifier.MatchString(literal) {
+	// An IDENTIFIER token was validated by the lexer (combining marks, digits of any script,
+	// connector punctuation); the pattern only vets reserved words and literals used as names.
+	if p.token != token.IDENTIFIER && !matchIdentifier.MatchString(literal) {
 		p.expect(token.IDENTIFIER)
 		p.nextStatement()
 		return &ast.BadExpression{From: period, To: p.idx}
